@@ -88,6 +88,37 @@ def typecheckU (Γ : List BTy) : UTree → Option (TTree × BTy)
     | some (ta, _) => some (.isNotNull BTy.b.toTy ta, .b)
     | none => none
 
+/-- every variable is one of the first `k` columns -/
+def UTree.bound (k : Nat) : UTree → Bool
+  | .const _ => true
+  | .var n => decide (n < k)
+  | .and l r => l.bound k && r.bound k
+  | .or l r => l.bound k && r.bound k
+  | .not a => a.bound k
+  | .isNull a => a.bound k
+  | .isNotNull a => a.bound k
+
+/-- the static type SQL would give the expression (total; `NOT` keeps its operand's type) -/
+def UTree.sqlType (Γ : List BTy) : UTree → BTy
+  | .const t => if t.isNone then .n else .b
+  | .var n => (Γ[n]?).getD .n
+  | .and l r => if (l.sqlType Γ).nullable || (r.sqlType Γ).nullable then .bn else .b
+  | .or l r => if (l.sqlType Γ).nullable || (r.sqlType Γ).nullable then .bn else .b
+  | .not a => a.sqlType Γ
+  | .isNull _ => .b
+  | .isNotNull _ => .b
+
+/-- the expression contains a `NOT` whose operand has static type exactly NULL (the NULL literal, a NULL-typed
+    column, or NOT of one of those) — the witness class of finding `null-typed-operand-rejected` -/
+def UTree.notOverNull (Γ : List BTy) : UTree → Bool
+  | .const _ => false
+  | .var _ => false
+  | .and l r => l.notOverNull Γ || r.notOverNull Γ
+  | .or l r => l.notOverNull Γ || r.notOverNull Γ
+  | .not a => a.notOverNull Γ || a.sqlType Γ == .n
+  | .isNull a => a.notOverNull Γ
+  | .isNotNull a => a.notOverNull Γ
+
 end Octo.Logic
 
 /-! ### Comparisons of Int / NULL operands through `FunctionExpression.Typecheck` -/
